@@ -210,7 +210,9 @@ func (a *app) ServeHTTP(rw http.ResponseWriter, r *http.Request) {
 		select {
 		case <-time.After(spec.Delay):
 		case <-r.Context().Done():
-			return
+			// the caller went away: answer nothing (returning normally would make the
+			// application's HTTP server emit an implicit 200 that races with piko's timeout)
+			panic(http.ErrAbortHandler)
 		}
 	}
 	if spec.Abort {
